@@ -373,3 +373,57 @@ Proof.
   - right. destruct k; try discriminate. auto.
   - left. exact H.
 Qed.
+
+(* ---- the response format stage comes after the gate ---- *)
+(* a refusal of the gate is served by the reflective entry point whatever the Accept header asks for *)
+Theorem reflective_acc_refusal k form_st acc hasbody parse consumes keys s :
+  parse <> Some [] ->
+  fst (expected hasbody parse consumes keys) = Some s ->
+  reflective_acc k form_st acc (gate_untyped hasbody parse parse consumes keys) = (Some s, None).
+Proof.
+  intros NE H. rewrite <- (gate_untyped_expected hasbody parse consumes keys NE) in H.
+  destruct (outcome_cases (gate_untyped hasbody parse parse consumes keys)) as [[E O]|[c [l [E O]]]];
+    rewrite O in H; cbn [fst] in H; [discriminate|].
+  injection H as ->. unfold reflective_acc. rewrite E. reflexivity.
+Qed.
+
+(* ... and by Context.BindValidRequest *)
+Theorem typed_acc_refusal acc hasbody parse consumes keys s :
+  fst (expected hasbody parse consumes keys) = Some s ->
+  typed_acc hasbody acc (gate_typed hasbody parse parse consumes keys) = (Some s, None).
+Proof.
+  intros H. rewrite <- (gate_typed_expected hasbody parse consumes keys) in H.
+  destruct (outcome_cases (gate_typed hasbody parse parse consumes keys)) as [[E O]|[c [l [E O]]]];
+    rewrite O in H; cbn [fst] in H; [discriminate|].
+  injection H as ->. unfold typed_acc. rewrite E. reflexivity.
+Qed.
+
+(* with a satisfiable Accept header (or none) the stage changes nothing *)
+Theorem reflective_acc_satisfiable k form_st g : reflective_acc k form_st true g = reflective k form_st g.
+Proof. unfold reflective_acc, reflective. destruct (fst g); reflexivity. Qed.
+
+Theorem typed_acc_satisfiable hb g : typed_acc hb true g = outcome g.
+Proof.
+  unfold typed_acc, outcome, first_status, decoding_consumer. rewrite Bool.andb_false_r.
+  destruct (fst g); reflexivity.
+Qed.
+
+(* the reflective entry point meets the predicate the check evaluates, for every answer of the negotiation *)
+Theorem reflective_acc_meets_spec k form_st acc hasbody parse consumes keys :
+  parse <> Some [] ->
+  let r := reflective_acc k form_st acc (gate_untyped hasbody parse parse consumes keys) in
+  gate_before_format acc (expected hasbody parse consumes keys)
+    (reflective_ok k (is_some form_st) (expected hasbody parse consumes keys) (fst r) (snd r) (is_none (fst r)))
+    (fst r) (snd r) (is_none (fst r)) = true.
+Proof.
+  intros NE r. subst r. destruct acc.
+  - rewrite reflective_acc_satisfiable. cbn [gate_before_format]. now apply reflective_meets_spec.
+  - cbn [gate_before_format].
+    destruct (fst (expected hasbody parse consumes keys)) as [s|] eqn:X.
+    + rewrite (reflective_acc_refusal k form_st false hasbody parse consumes keys s NE X).
+      unfold reflective_ok. rewrite X. cbn [fst snd opt_eqb is_none negb]. rewrite Nat.eqb_refl. reflexivity.
+    + rewrite <- (gate_untyped_expected hasbody parse consumes keys NE) in X.
+      destruct (outcome_cases (gate_untyped hasbody parse parse consumes keys)) as [[E O]|[c [l [E O]]]];
+        rewrite O in X; cbn [fst] in X; [|discriminate].
+      unfold reflective_acc. rewrite E. cbn [fst snd is_none]. apply Bool.orb_true_r.
+Qed.
